@@ -611,6 +611,8 @@ func specIsHex(b byte) bool {
 //@ func (*scanner).refill
 //@ requires s.pos >= s.used
 //@ ensures [C12.refill.data] result != nil ==> s.pos >= s.used
+//@ ensures [C12.refill.frame] sameslice(s.buf, old(s.buf)) && sameslice(s.peek, old(s.peek)) && s.regurgitate == old(s.regurgitate) && s.eexec == old(s.eexec) && onlyrefs(s.buf)
+//@ ensures opaque [C12.refill.tape] old(s.err) == nil ==> s.pos == 0 && tpos() == old(tpos()) + s.used && (forall j :: 0 <= j && j < s.used ==> s.buf[j] == tape(old(tpos()) + j))
 //@ ensures [C12.refill.progress] result == nil ==> s.pos == 0 && s.used > 0 || s.used == 0
 //@ ensures [C12.refill.bounds] 0 <= s.pos && s.pos <= s.used && s.used <= len(s.buf)
 
@@ -741,3 +743,38 @@ func specHexVal(b byte) byte {
 //@ loop 1 back-when [C04.hex.reject] prev(hexHead(s, res)) ==> prev(view(s, 0)) <= 32 || specHexVal(prev(view(s, 0))) != 255
 //@ loop 1 back-when [C04.hex.prefix] prev(hexHead(s, res)) ==> (forall k :: 0 <= k && k < prev(len(res)) && k < len(res) ==> res[k] == prev(res[k]))
 //@ loop 1 exit-when [C04.hex.end] prev(hexHead(s, res)) ==> prev(view(s, 0)) == 62 && len(res) == prev(len(res)) && first == prev(first) && hi == prev(hi)
+
+// ---------------------------------------------------------------------
+// C12: the byte layer hands out the input tape in order, whatever the
+// delivery schedule.  tape(k) is the k-th byte the underlying reader delivers
+// (in portions of any size, see the io.Reader contract), tpos() the number
+// delivered so far.  cursor(s) = tpos() - avail(s) is the tape position of
+// the next byte the scanner will hand out; onTape(s) says the bytes in memory
+// are exactly tape[cursor, tpos).  In clear-text mode every successful Next
+// returns tape(cursor) and advances the cursor by one; Peek does not move it;
+// refilling the buffer (any number of bytes, also zero) keeps both facts.
+//@ define cursor(s) = tpos() - avail(s)
+//@ define onTape(s) = (forall k :: 0 <= k && k < len(s.peek) ==> view(s, k) == tape(tpos() - avail(s) + k)) && (forall k :: 0 <= k && k < s.used - s.pos ==> s.buf[s.pos+k] == tape(tpos() - (s.used - s.pos) + k))
+//@ define bufCursor(s) = tpos() - (s.used - s.pos)
+//@ define bufOnTape(s) = forall k :: 0 <= k && k < s.used - s.pos ==> s.buf[s.pos+k] == tape(tpos() - (s.used - s.pos) + k)
+
+//@ func (*scanner).readByteRaw
+//@ reveal C12.refill.tape
+//@ ensures opaque [C12.raw.tape] old(!s.regurgitate && bufOnTape(s)) && result1 == nil ==> result0 == tape(old(bufCursor(s))) && bufCursor(s) == old(bufCursor(s)) + 1 && bufOnTape(s) && !s.regurgitate && sameslice(s.peek, old(s.peek)) && ref(s.buf) == old(ref(s.buf)) && onlyrefs(s.buf)
+//@ loop 1 invariant [C12.raw.tape] old(!s.regurgitate && bufOnTape(s)) ==> bufCursor(s) == old(bufCursor(s)) && bufOnTape(s) && !s.regurgitate && sameslice(s.peek, old(s.peek)) && ref(s.buf) == old(ref(s.buf)) && onlyrefs(s.buf)
+
+//@ func (*scanner).readByte
+//@ reveal C12.raw.tape
+//@ ensures opaque [C12.byte.tape] old(s.eexec == 0 && !s.regurgitate && bufOnTape(s)) && result1 == nil ==> result0 == tape(old(bufCursor(s))) && bufCursor(s) == old(bufCursor(s)) + 1 && bufOnTape(s) && !s.regurgitate && s.eexec == 0 && sameslice(s.peek, old(s.peek)) && ref(s.buf) == old(ref(s.buf)) && onlyrefs(s.buf)
+
+//@ func (*scanner).Next
+//@ reveal C12.byte.tape
+//@ ensures opaque [C12.next.value] old(viewOK(s) && viewSep(s) && onTape(s)) && result1 == nil ==> result0 == tape(old(cursor(s))) && cursor(s) == old(cursor(s)) + 1 && viewOK(s) && viewSep(s)
+//@ ensures opaque [C12.next.tape.peeked] old(viewOK(s) && viewSep(s) && onTape(s) && len(s.peek) > 0) && result1 == nil ==> onTape(s)
+//@ ensures opaque [C12.next.tape.buffer] old(viewOK(s) && viewSep(s) && onTape(s) && len(s.peek) == 0) && result1 == nil ==> onTape(s)
+
+//@ func (*scanner).Peek
+//@ reveal C12.byte.tape
+//@ ensures opaque [C12.peek.value] old(viewOK(s) && viewSep(s) && onTape(s)) && result1 == nil ==> result0 == tape(old(cursor(s))) && cursor(s) == old(cursor(s)) && viewOK(s) && viewSep(s)
+//@ ensures opaque [C12.peek.tape] old(viewOK(s) && viewSep(s) && onTape(s)) && result1 == nil ==> onTape(s)
+//@ loop 1 invariant [C12.peek.tape] old(viewOK(s) && viewSep(s) && onTape(s)) ==> cursor(s) == old(cursor(s)) && onTape(s) && viewOK(s) && viewSep(s) && len(s.peek) <= old(len(s.peek)) + 1
